@@ -280,3 +280,30 @@ def check(ctx, rep, rule, entry=True):
                'the Imsaak entry is the builder\'s value, unmodified' if okv else
                f'the Imsaak entry is {show(bad[0], maxd=4)[:160]}: the builder\'s value is changed after it was computed')
     rep.extra['imsaak_entries_compared'] = n_e
+    # the flag of the value returned: Imsaak is "extreme" exactly when the Fajr entry it was converted from is - the builder
+    # itself replaces nothing, so it has nothing of its own to flag (with no policy, nothing is flagged)
+    n_f = 0
+    for st in r['leaves']:
+        ret = eng.purify(st, st.ret)
+        for c, v in ite_leaves(ret):
+            if not (isinstance(v, tuple) and v and v[0] == 'enum' and v[2] == 'Ok' and v[4]):
+                continue
+            pt = v[4][0]
+            if not (isinstance(pt, tuple) and pt and pt[0] == 'enum'):
+                continue
+            a_ = ctx.lib.adts.get(pt[1])
+            if not a_:
+                continue
+            flags = [x for f_, x in zip(a_['variants'][0]['fields'], pt[4]) if f_['ty']['s'] == 'bool']
+            if len(flags) != 1:
+                continue
+            n_f += 1
+            fl = flags[0]
+            okf = isinstance(fl, tuple) and fl and fl[0] == 'field' and fl[2] == 'extreme' and \
+                any(x and x[0] == 'app' and x[1] == 'policy-layer-result' and x[2][0][2] == 'Fajr' for x in subterms(fl)) and \
+                not any(x and x[0] in ('bin', 'ite', 'un') for x in subterms(fl))
+            rep.ob(rule, 'imsaak:flag-is-fajr-flag', okf,
+                   'Imsaak carries the extreme flag of the Fajr entry it is converted from' if okf else
+                   f'the extreme flag of Imsaak is {show(fl, maxd=4)[:140]}: not simply the flag of the Fajr entry - Imsaak can be flagged '
+                   'although no policy replaced anything')
+    rep.extra['imsaak_flags_compared'] = n_f
